@@ -505,7 +505,13 @@ class LambdaExpression(Expression):
                 expr,
             )
 
-        assert token.type_ == TokenType.LPAREN
+        if token.type_ != TokenType.LPAREN:
+            raise LiquidSyntaxError(
+                "expected a lambda parameter name or list of names, "
+                f"found {token.type_.name}",
+                token=token,
+            )
+
         params: list[Identifier] = []
 
         while stream.current().type_ != TokenType.RPAREN:
